@@ -1,6 +1,7 @@
 package main
 
 import (
+	"regexp"
 	"fmt"
 	"go/ast"
 	"strings"
@@ -65,6 +66,40 @@ func genResolver(repo string) {
 	}
 	fmt.Fprintf(&g.body, "/-- `DeleteRange` checks the scan's error before its end-of-range marker -/\ndef deleteRangeChecksErrorFirst : Bool := %v\n", errFirst)
 	facts.Extra["deleteRangeChecksErrorFirst"] = errFirst
+	// badger point writes: the two-key transactions of Put / Delete and their batch forms
+	{
+		sq := func(recv, fn string) string {
+			if fd := bd.funcDecl(recv, fn); fd != nil {
+				return strings.NewReplacer(" ", "", "\t", "", "\n", "").Replace(regexp.MustCompile(`//[^\n]*`).ReplaceAllString(bd.src(fd), ""))
+			}
+			return ""
+		}
+		put, del, bput, bdel := sq("BadgerDB", "Put"), sq("BadgerDB", "Delete"), sq("goBatch", "Put"), sq("goBatch", "Delete")
+		putOK := strings.Contains(put, "err=db.bdp.Update(func(txn*badger.Txn)error{iferr:=txn.Set(key,v);err!=nil{returnerr}iferr:=txn.Delete(tombstoneKey);err!=nil{returnerr}returnnil})") &&
+			strings.Contains(bput, "ifbatch.vctx!=nil{tombstone:=batch.vctx.TombstoneKey(tk)batch.WriteBatch.Delete(tombstone)}") && strings.Contains(bput, "batch.WriteBatch.Set(key,v)")
+		delOK := strings.Contains(del, "err=db.bdp.Update(func(txn*badger.Txn)error{iferr:=txn.Delete(key);err!=nil{returnerr}iferr:=txn.Set(tombstoneKey,dvid.EmptyValue());err!=nil{returnerr}returnnil})") &&
+			strings.Contains(bdel, "ifbatch.vctx!=nil{tombstone:=batch.vctx.TombstoneKey(tk)batch.WriteBatch.Set(tombstone,dvid.EmptyValue())}") && strings.Contains(bdel, "batch.WriteBatch.Delete(key)")
+		fmt.Fprintf(&g.body, "/-- versioned `Put` (and `goBatch.Put`) sets the data key and deletes the tombstone key of the same version, in one transaction / batch -/\ndef storePutClearsTombstone : Bool := %v\n", putOK)
+		fmt.Fprintf(&g.body, "/-- versioned `Delete` (and `goBatch.Delete`) unconditionally deletes the data key and sets the tombstone key of the same version, in one transaction / batch -/\ndef storeDeleteWritesTombstone : Bool := %v\n", delOK)
+		facts.Extra["storePutClearsTombstone"], facts.Extra["storeDeleteWritesTombstone"] = putOK, delOK
+	}
+	// badger DeleteRange: shape of the batching of its deletes
+	afterAdd, batch := false, int64(-1)
+	if fd := bd.funcDecl("BadgerDB", "DeleteRange"); fd != nil {
+		src := strings.NewReplacer(" ", "", "\t", "", "\n", "").Replace(bd.src(fd))
+		fmt.Sscanf(src[strings.Index(src, "constBATCH_SIZE=")+len("constBATCH_SIZE="):], "%d", &batch)
+		i := strings.Index(src, "wb.Delete(tk)")
+		j := strings.Index(src, "if(numKV+1)%BATCH_SIZE==0{iferr:=wb.Commit();err!=nil{")
+		k := strings.Index(src, "wb=db.NewBatch(ctx).(*goBatch)}numKV++}ifnumKV%BATCH_SIZE!=0{iferr:=wb.Commit();err!=nil{")
+		afterAdd = i >= 0 && j > i && k > j && strings.Count(src, "wb.Delete(tk)") == 1 && strings.Count(src, "wb.Commit()") == 2
+	}
+	fmt.Fprintf(&g.body, "/-- `DeleteRange` adds each delete to the batch, commits the batch when it is full, and commits the remainder after the loop -/\ndef deleteRangeFlushesAfterAdd : Bool := %v\n", afterAdd)
+	if batch > 0 {
+		fmt.Fprintf(&g.body, "def deleteRangeBatchSize : Nat := %d\n", batch)
+	} else {
+		g.body.WriteString("def deleteRangeBatchSize : Nat := unknown_deleteRangeBatchSize\n")
+	}
+	facts.Extra["deleteRangeFlushesAfterAdd"] = afterAdd
 	// keyvalue.NewTKey: are keys containing the terminator byte rejected?
 	kvp := loadPkg(repo, "datatype/keyvalue")
 	rejects := false
